@@ -387,7 +387,7 @@ var runningModel = porcupine.Model{
 }
 
 type linResult struct {
-	ok, illegal, unknown, skipped int
+	ok, illegal, unknown, unknownResolved, skipped int
 }
 
 // checkLinearizable checks every controller's partition of the history.
@@ -425,15 +425,28 @@ func checkLinearizable(s *sink, caseName string, all []opRec, lr *linResult) {
 			lr.skipped++
 			continue
 		}
-		res, info := porcupine.CheckOperationsVerbose(runningModel, ops, 20*time.Second)
+		res, info := porcupine.CheckOperationsVerbose(runningModel, ops, 5*time.Second)
+		exact, decided := exactLinearizable(part)
 		switch res {
 		case porcupine.Ok:
 			lr.ok++
+			if decided && !exact {
+				s.Inconclusive(fmt.Sprintf("%s: porcupine says linearizable, the exact sweep says not (harness bug)", caseName))
+			}
 		case porcupine.Unknown:
 			lr.unknown++
-			s.Inconclusive(fmt.Sprintf("porcupine timed out on %s (%d operations)", caseName, len(ops)))
+			// a timeout is never a violation; it is resolved only in the "held" direction
+			if decided && exact {
+				lr.unknownResolved++
+			} else {
+				s.Inconclusive(fmt.Sprintf("porcupine timed out on %s (%d operations) and the exact sweep did not find a linearization", caseName, len(ops)))
+			}
 		case porcupine.Illegal:
 			lr.illegal++
+			if decided && exact {
+				s.Inconclusive(fmt.Sprintf("%s: porcupine says illegal, the exact sweep found a linearization (harness bug)", caseName))
+				continue
+			}
 			// name the first operation (by call time) that the longest partial
 			// linearization could not place
 			key := "not-linearizable:running-model"
@@ -489,4 +502,138 @@ func opsByType(all []opRec, into map[string]int64) {
 			into["ret.error."+o.Kind]++
 		}
 	}
+}
+
+// exactLinearizable decides the same question as porcupine for the running:bool model with a
+// time sweep that is polynomial in practice. It is used when porcupine times out and as a
+// cross-check. Reads (operations that constrain but do not change the state) are linearized
+// as soon as they are pending and the state fits, which never loses a linearization; among
+// pending writes of the same kind only the one returning first needs to be tried.
+func exactLinearizable(part []opRec) (linearizable bool, decided bool) {
+	const (
+		cW1 = iota // sets running
+		cW0        // clears running
+		cR1        // legal iff running
+		cR0        // legal iff not running
+	)
+	type op struct {
+		class     int
+		call, ret int64
+	}
+	var ops []op
+	for _, o := range part {
+		switch {
+		case o.Kind == "Start" && o.Err == "":
+			ops = append(ops, op{cW1, o.Call, o.Ret})
+		case o.Kind == "Stop" && o.Err == "":
+			ops = append(ops, op{cW0, o.Call, o.Ret})
+		case o.Kind == "IsRunning" && o.Running:
+			ops = append(ops, op{cR1, o.Call, o.Ret})
+		case o.Kind == "IsRunning":
+			ops = append(ops, op{cR0, o.Call, o.Ret})
+		case o.Kind == "StartWatches" || o.Kind == "StopWatches" || o.Kind == "GetWatches":
+			if o.Err == "" {
+				ops = append(ops, op{cR1, o.Call, o.Ret})
+			} else if o.NotRunning {
+				ops = append(ops, op{cR0, o.Call, o.Ret})
+			}
+		}
+	}
+	if len(ops) > 64 {
+		return false, false
+	}
+	type ev struct {
+		t    int64
+		ret  bool
+		op   int
+		open bool
+	}
+	var evs []ev
+	for i, o := range ops {
+		evs = append(evs, ev{t: o.call, op: i}, ev{t: o.ret, ret: true, op: i})
+	}
+	// calls before returns at equal stamps (closed intervals, as in porcupine)
+	sort.Slice(evs, func(a, b int) bool {
+		if evs[a].t != evs[b].t {
+			return evs[a].t < evs[b].t
+		}
+		return !evs[a].ret && evs[b].ret
+	})
+	type cfg struct {
+		val  bool
+		done uint64
+	}
+	var pending uint64
+	closeReads := func(c cfg) cfg {
+		for i := range ops {
+			b := uint64(1) << uint(i)
+			if pending&b == 0 || c.done&b != 0 {
+				continue
+			}
+			if (ops[i].class == cR1 && c.val) || (ops[i].class == cR0 && !c.val) {
+				c.done |= b
+			}
+		}
+		return c
+	}
+	expand := func(seed map[cfg]bool) map[cfg]bool {
+		out := map[cfg]bool{}
+		var stack []cfg
+		for c := range seed {
+			c = closeReads(c)
+			if !out[c] {
+				out[c] = true
+				stack = append(stack, c)
+			}
+		}
+		for len(stack) > 0 {
+			c := stack[len(stack)-1]
+			stack = stack[:len(stack)-1]
+			for _, class := range []int{cW1, cW0} {
+				best := -1
+				for i := range ops {
+					b := uint64(1) << uint(i)
+					if pending&b == 0 || c.done&b != 0 || ops[i].class != class {
+						continue
+					}
+					if best < 0 || ops[i].ret < ops[best].ret {
+						best = i
+					}
+				}
+				if best < 0 {
+					continue
+				}
+				n := closeReads(cfg{val: class == cW1, done: c.done | uint64(1)<<uint(best)})
+				if !out[n] {
+					out[n] = true
+					stack = append(stack, n)
+				}
+			}
+		}
+		return out
+	}
+	cur := map[cfg]bool{{}: true}
+	for _, e := range evs {
+		b := uint64(1) << uint(e.op)
+		if !e.ret {
+			pending |= b
+			cur = expand(cur)
+			continue
+		}
+		next := map[cfg]bool{}
+		for c := range cur {
+			if c.done&b != 0 {
+				next[c] = true
+			}
+		}
+		pending &^= b
+		if len(next) == 0 {
+			return false, true
+		}
+		cur = next
+		if len(cur) > 200000 {
+			return false, false
+		}
+	}
+	return true, true
 }
